@@ -151,7 +151,7 @@ func vBE(v, n int) string {
 // physical layout an independent writer chooses for the file.
 //
 //symgo:harness prop=C01 kernel=K5-whole-file-layouts
-//symgo:desc file bytes produced by a harness-local PDF writer and read through the file content model (os.Open/Stat/Seek/Read of the real reader; natively a real temporary file); logical document: 2 pages, page i shows "Page<i> first" and "Page<i> second" with Helvetica/WinAnsi; enumerated physical choices: cross-reference as classic table or as (unfiltered) cross-reference stream; with an xref stream, non-stream objects packed into an (unfiltered) object stream or not; page content in one stream or split over an array of two streams between operators; /Length direct or by reference with the length object after the stream; pages directly under the root or under an intermediate /Pages node, with /Resources and /MediaBox on the page or inherited from the root; zero or one incremental revision that replaces page 1's content (classic revisions append a classic section with /Prev, stream revisions an xref stream with /Prev and /Index); line ends LF or CRLF; content streams unfiltered or ASCIIHex over Flate (quick), plus Flate alone and ASCIIHex under its abbreviated name /AHx (thorough) - the Flate data are stored deflate blocks, inflated by the real compress/zlib, interpreted: PageCount is 2 and Pages(i).Text() holds exactly page i's current texts in content order and none of the other page's or of the replaced revision
+//symgo:desc file bytes produced by a harness-local PDF writer and read through the file content model (os.Open/Stat/Seek/Read of the real reader; natively a real temporary file); logical document: 2 pages, page i shows "Page<i> first" and "Page<i> second" with Helvetica/WinAnsi; enumerated physical choices: cross-reference as classic table or as (unfiltered) cross-reference stream; with an xref stream, non-stream objects packed into an (unfiltered) object stream or not; page content in one stream or split over an array of two streams between operators; /Length direct or by reference with the length object after the stream; pages directly under the root or under an intermediate /Pages node, with /Resources and /MediaBox on the page or inherited from the root; zero or one incremental revision that replaces page 1's content stream or page 1's page object (which then points to a new content stream) (classic revisions append a classic section with /Prev, stream revisions an xref stream with /Prev and /Index); line ends LF or CRLF; content streams unfiltered or ASCIIHex over Flate (quick), plus Flate alone and ASCIIHex under its abbreviated name /AHx (thorough) - the Flate data are stored deflate blocks, inflated by the real compress/zlib, interpreted: PageCount is 2 and Pages(i).Text() holds exactly page i's current texts in content order and none of the other page's or of the replaced revision
 func H_C01_text_survives_physical_layout() {
 	xrefStream := vAnyIntIn(0, 1) == 1
 	pack := xrefStream && vAnyIntIn(0, 1) == 1
@@ -159,7 +159,8 @@ func H_C01_text_survives_physical_layout() {
 	indirectLen := vAnyIntIn(0, 1) == 1
 	deep := vAnyIntIn(0, 1) == 1
 	inherit := vAnyIntIn(0, 1) == 1
-	revise := vAnyIntIn(0, 1) == 1
+	reviseKind := vAnyIntIn(0, 2) // 0 none, 1 replace page 1's content stream, 2 replace page 1's page object (new content stream)
+	revise := reviseKind > 0
 	eol := "\n"
 	if vAnyIntIn(0, 1) == 1 {
 		eol = "\r\n"
@@ -252,18 +253,31 @@ func H_C01_text_survives_physical_layout() {
 	if revise {
 		// the revision replaces the (first) content stream of page 1; a split page keeps its second stream
 		lenBefore := nextLen
-		if split {
+		if reviseKind == 2 {
+			// the page dictionary itself - a non-stream object, packed into revision 1's object stream when packing
+			// is on - is superseded; its new content lives in a new object
+			putContent(14, "BT /F1 12 Tf 72 720 Td (Page1 revised) Tj ET")
+			w.obj(4, "<< /Type /Page /Parent "+strconv.Itoa(parent)+" 0 R "+pageAttrs+" /Contents 14 0 R >>")
+			want1 = []string{"Page1 revised"}
+			rev := []int{4, 14}
+			for n := lenBefore; n < nextLen; n++ {
+				rev = append(rev, n)
+			}
+			writeXRef(first, rev, 28, 29)
+		} else if split {
 			putContent(10, "BT /F1 12 Tf 72 720 Td (Page1 revised) Tj"+eol)
 			want1 = []string{"Page1 revised", "Page1 second"}
 		} else {
 			putContent(10, "BT /F1 12 Tf 72 720 Td (Page1 revised) Tj ET")
 			want1 = []string{"Page1 revised"}
 		}
-		rev := []int{10}
-		for n := lenBefore; n < nextLen; n++ {
-			rev = append(rev, n)
+		if reviseKind == 1 {
+			rev := []int{10}
+			for n := lenBefore; n < nextLen; n++ {
+				rev = append(rev, n)
+			}
+			writeXRef(first, rev, 28, 29)
 		}
-		writeXRef(first, rev, 28, 29)
 	}
 	name := "/tmp/symgo-replay-c01.pdf"
 	vFileContent(name, string(w.buf))
@@ -287,6 +301,9 @@ func H_C01_text_survives_physical_layout() {
 	absent1 := []string{"Page2"}
 	if revise {
 		absent1 = append(absent1, "Page1 first")
+	}
+	if reviseKind == 2 {
+		absent1 = append(absent1, "Page1 second")
 	}
 	check(1, want1, absent1)
 	check(2, []string{"Page2 first", "Page2 second"}, []string{"Page1"})
